@@ -106,6 +106,15 @@ func (s *Sim) checkBegin(b *blockObs, before, after *Dump) {
 			psi, had := vb.Signing[addr]
 			nsi := va.Signing[addr]
 			downtime := had && psi.MissedBlocksCounter > 0 && nsi.MissedBlocksCounter == 0 && !nv.StakedTokens.Equal(pv.StakedTokens)
+			// a double-sign slash that takes the stake below the minimum jails too (without a jail
+			// period), and at a window boundary the missed-block counter is reset in the same block:
+			// a node named by this block's evidence is not judged as a downtime jailing
+			for _, ev := range b.spec.Evidence {
+				if sdk.Address(ev.Validator.Address).String() == addr {
+					downtime = false
+					s.res.Probe("jailed_in_a_block_whose_evidence_names_it")
+				}
+			}
 			if downtime {
 				if raw, ok := vb.Params["pos/DowntimeJailDuration"]; ok {
 					if ns, err := strconv.ParseInt(strings.Trim(raw, `"`), 10, 64); err == nil {
